@@ -17,6 +17,17 @@ def main():
     if a.tier:
         os.environ['VERIF_TIER'] = a.tier
     pid = a.pid.upper()
+    if a.replay:
+        import json
+        with open(a.replay) as f:
+            r = json.load(f)
+        d = (r.get('first') or r).get('detail', {})
+        text = d.get('text') or d.get('input') or d.get('file')
+        if isinstance(text, str):
+            os.environ['VERIF_ONLY'] = text
+            print('replaying only the recorded input: %r' % text)
+        else:
+            print('replay file has no single input text; running the whole check')
     try:
         if pid == 'SELFTEST':
             mod = importlib.import_module('harness.selftest')
